@@ -101,6 +101,9 @@ pub fn call(name: &str, args: &[V]) -> R {
                 _ => R::Err,
             },
             V::Map(m) => {
+                if matches!(&args[1], V::Float(f) if f.is_nan()) {
+                    return R::Ok(V::Null); // a float is a key kind; NaN equals no key: a miss
+                }
                 if !valid_key(&args[1]) {
                     return R::Err; // the key kinds insert and indexing reject are rejected here as well
                 }
@@ -117,6 +120,9 @@ pub fn call(name: &str, args: &[V]) -> R {
         },
         "contains" => match a0 {
             V::Map(m) => {
+                if matches!(&args[1], V::Float(f) if f.is_nan()) {
+                    return R::Ok(V::Bool(false)); // a float is a key kind; NaN equals no key: a miss
+                }
                 if !valid_key(&args[1]) {
                     return R::Err; // the key kinds insert and indexing reject are rejected here as well
                 }
